@@ -19,7 +19,7 @@ RULE = (
     "sample or condition that is absent from this stage's rows"
 )
 ASSUMPTIONS = ["the lineage root is the screen handed to the hold-out split (what prepare_retrospective_simulation saves)"]
-REQUIRED = {"stages_checked": {"quick": 6000, "thorough": 60000}, "stages_with_holdout_only_conditions": {"quick": 3000, "thorough": 30000}, "prediction_comparisons": {"quick": 50000, "thorough": 500000}, "cli_stages": {"quick": 400, "thorough": 4000}, "zero_row_stages": {"quick": 15, "thorough": 200}}
+REQUIRED = {"stages_checked": {"quick": 6000, "thorough": 60000}, "stages_with_holdout_only_conditions": {"quick": 3000, "thorough": 30000}, "prediction_comparisons": {"quick": 50000, "thorough": 500000}, "cli_stages": {"quick": 400, "thorough": 4000}, "zero_row_stages": {"quick": 15, "thorough": 200}, "train_cli_runs": {"quick": 40, "thorough": 500}}
 N_LIN = {"quick": 640, "thorough": 6400}
 
 
@@ -55,6 +55,47 @@ def check_stage(rec, stage, root, smap, tmap, what, w):
     lost_t = sorted(k for k, v in tmap.items() if t2.get(k) != v)
     rec.check(not lost_s and not lost_t, "C03/mapping/root-entry-lost-%s" % (what.split(":")[0]), lambda: "%s: the stage's mappings no longer assign the lineage's id to samples %r / conditions %r" % (what, lost_s[:4], lost_t[:4]), w)
     return bad is None and not lost_s and not lost_t
+
+
+def train_cli_ids(rec, train, smap, tmap, a_h5, b_h5, lhash):
+    """train_model run in-process on the saved training stage: every experiment must reach the model under the
+    lineage's ids (a model indexes its embeddings by them)"""
+    from batchie.core import BayesianModel
+    from batchie.cli import train_model
+
+    train.save_h5(a_h5)
+    seen = []
+    with kit.Patches() as P:
+        def mk(orig):
+            def add_observations(self, data):
+                names = [str(x) for x in np.asarray(data.sample_names)]
+                tn, td = np.asarray(data.treatment_names), np.asarray(data.treatment_doses)
+                for i in range(len(names)):
+                    seen.append((names[i], int(np.asarray(data.sample_ids)[i]), [((str(tn[i, a]), float(td[i, a])), int(np.asarray(data.treatment_ids)[i, a])) for a in range(tn.shape[1])]))
+                return orig(self, data)
+
+            return add_observations
+
+        P.wrap(BayesianModel, "add_observations", mk)
+        try:
+            kit.run_cli(train_model.main, ["--data", a_h5, "--model", "SparseDrugCombo", "--model-param", "n_embedding_dimensions=1", "--output", b_h5, "--n-samples", 1, "--n-burnin", 0, "--thin", 1, "--seed", 1])
+        except Exception as e:
+            rec.did_not_return("train_model-cli", e)
+            return
+    rec.case((lhash, "train_model-cli"), nontrivial=True)
+    rec.count("train_cli_runs")
+    bad = None
+    for name, sid, ts in seen:
+        if smap.get(name) != sid:
+            bad = ("sample", name, sid, smap.get(name))
+            break
+        for key, tid in ts:
+            if tmap.get(key) != tid:
+                bad = ("treatment", key, tid, tmap.get(key))
+                break
+        if bad:
+            break
+    rec.check(bool(seen) and bad is None, "C03/ids/renumbered-train_model-cli", lambda: "train_model handed the model %s %r under id %r, the lineage assigns %r" % (bad if bad else ("nothing", None, None, None)), {"lineage": lhash})
 
 
 def run_shard(rec, tier, seed, shard, nshards):
@@ -116,6 +157,8 @@ def run_shard(rec, tier, seed, shard, nshards):
                 rec.violation("C03/predict/raises-on-stage-0", "prediction on the freshly split screens raised %r" % (e,), {"lineage": lhash})
                 continue
 
+            if li % 6 == 0 and train.size and bool(np.any(train.observation_mask)):
+                train_cli_ids(rec, train, smap, tmap, a_h5, b_h5, lhash)
             for which, stage in (("train", train), ("test", test)):
                 if stage.size == 0:
                     # a zero-row stage has no row ids to compare, but it still carries the lineage's mappings (a model
